@@ -243,7 +243,7 @@ SEQUENCES = [
 ]
 
 TEXT_GLOBAL = ["", " ", "\n", "#", "---", "...", "--- \n...", "null", "~", "1", "abc", "[]", "[1]", "{}", "- a", "? a", "a", "a:", ": 1", "{a}", "{a, b}", "a: 1\n---\na: 2",
-               "\ufeffa: 1", "\x00", "a: \x00", "a: \x01", "\x85", "\ud800", "%", "%YAML 1.1", "!!map {}", "!!map", "!!omap [i: 1]", "!!set {i}", "!!python/dict {}",
+               "\ufeffa: 1", "\x00", "a: \x00", "a: \x01", "\x85", "\udcff", "%", "%YAML 1.1", "!!map {}", "!!map", "!!omap [i: 1]", "!!set {i}", "!!python/dict {}",
                "1: 2", "null: 1", "true: 1", "1.5: 1", "[1]: 2", "? [i]\n: 1", "? {i: 1}\n: 2", "{i: 1}: 2", "2020-01-01: 1", "!!timestamp x: 1", "!!binary x: 1", "!!int x: 1",
                "\"\": 1", ".: 1", "..: 1", "a.: 1", ".a: 1", "a..b: 1", "i.: 1", "i..x: 1", "i.x: 1", "' ': 1", "'i ': 1", "-i: 1", "--i: 1", "i+: 1", "__path__: 1",
                "__default_config__: 1", "cfg: 1", "cfg: x", "cfg: [x]", "cfg: null", "cfg: {a: 1}", "cfg: 'i: 2'", "help: 1", "print_config: ''", "i: 1\ni: 2", "<<: {i: 1}",
@@ -424,7 +424,8 @@ LOADER_VALUES = V_SCALAR + V_BROKEN + V_TAGS   # their fate is mostly decided by
 # uses them at a fixed, small set of places; the thorough tier uses them everywhere.
 SELFREF = {"&x {a: *x}", "&a {i: *a}", "selfref-dict"}
 QUICK_MALFORMED_VALUES = ["1", "", "._", "{", "!!timestamp x", cp("Leaf"), "<missing>", '{"class_path": 1}']
-QUICK_EXIT_VALUES = QUICK_VALUES + V_TAGS[:12]
+QUICK_EXIT_VALUES = QUICK_VALUES + V_TAGS[:12] + ['[{"x": 1, "zz": 2}]', '{"x": 1, "zz": 2}', '{"k": {"x": "a"}}', '{"class_path": "calendar.Calendar", "init_args": {"zz": 1}}',
+                                                '{"class_path": "%s", "init_args": {"child": {"class_path": 1}}}' % cp("Sub"), '{"x": 1, "inner": {"zz": 1}}']
 THOROUGH_MALFORMED_VALUES = QUICK_VALUES + V_TAGS + V_BROKEN
 CLASSY = ("class", "Callable", "Type", "dataclass", "Any", "group", "inner", "Union", "cfg", "Dict", "List")
 
@@ -465,7 +466,7 @@ class Ctx:
         if self.shape in ("jsonnet", "omegaconf"):
             out = QUICK_VALUES + V_TAGS[:12] + V_BROKEN[:12] + V_PATHS[:4] if rep and not self.eoe else QUICK_VALUES[:6]
         elif self.eoe:
-            out = QUICK_EXIT_VALUES if rep or name in classy[:1] else QUICK_VALUES[:6]
+            out = QUICK_EXIT_VALUES if rep or name in classy else QUICK_VALUES[:6]
         else:
             out = list(LOADER_VALUES) if rep else list(QUICK_VALUES) if part == "argv" else QUICK_VALUES[:10]
             if name in classy[: 4 if part == "argv" else 1]:
@@ -632,7 +633,7 @@ def do_text(c):
         for text in TEXT_GLOBAL:
             ways(text, short(text), c.thorough or (not eoe and c.shape in ("flat", "subcommands")), selfref=text in SELFREF)
         # paths given directly to parse_path / as default config file
-        for v in V_PATHS + ["", " ", "-", "\n", "\ud800", "<good>\x00"]:
+        for v in V_PATHS + ["", " ", "-", "\n", "\udcff", "<good>\x00"]:
             rv = files.sub(v)
             c.call("parse_path", "path:" + short(v), {"path": rv}, lambda p: p.parse_path(rv), stdin="{")
             c.call("parse_args", "default_config_files:path:" + short(v), {"default_config_files": [rv], "argv": []},
